@@ -914,6 +914,87 @@ def _entangled(facts, vocab, words):
     return None
 
 
+def _plain_loop_locals(loop):
+    """Names that the body of `loop` binds by plain assignment statements only (`x = ..`, `x: T = ..`, `x += ..`, also
+    as an element of a tuple target), each reached through if/else nesting alone - i.e. exactly the bindings the path
+    executor tracks when it analyses the loop body once.  A name that is also bound by the loop target, a nested loop,
+    a with/try/except clause, a comprehension, an assignment expression, `del`, an import or a nested def is left out."""
+    total, plain = {}, {}
+    for n in ast.walk(loop):
+        if isinstance(n, ast.Name) and not isinstance(n.ctx, ast.Load):
+            total[n.id] = total.get(n.id, 0) + 1
+        elif isinstance(n, (ast.FunctionDef, ast.AsyncFunctionDef, ast.ClassDef)):
+            total[n.name] = total.get(n.name, 0) + 2
+        elif isinstance(n, (ast.Import, ast.ImportFrom)):
+            for a in n.names:
+                k = (a.asname or a.name).split(".")[0]
+                total[k] = total.get(k, 0) + 2
+        elif isinstance(n, ast.ExceptHandler) and n.name:
+            total[n.name] = total.get(n.name, 0) + 2
+        elif isinstance(n, (ast.Global, ast.Nonlocal)):
+            for k in n.names:
+                total[k] = total.get(k, 0) + 2
+
+    def targets(t):
+        if isinstance(t, ast.Name):
+            plain[t.id] = plain.get(t.id, 0) + 1
+        elif isinstance(t, (ast.Tuple, ast.List)):
+            for e in t.elts:
+                targets(e)
+
+    def visit(stmts):
+        for s in stmts:
+            if isinstance(s, ast.Assign):
+                for t in s.targets:
+                    targets(t)
+            elif isinstance(s, (ast.AnnAssign, ast.AugAssign)):
+                targets(s.target)
+            elif isinstance(s, ast.If):
+                visit(s.body)
+                visit(s.orelse)
+
+    visit(loop.body)
+    return {k for k, v in plain.items() if total.get(k) == v}
+
+
+def _read_before_assignment(t, plain):
+    """Names of `plain` that occur free in the path term t.  The path executor replaces a local by its defining term as
+    soon as the path has assigned it, so a plainly assigned local of the loop body that is still a bare name in a term
+    of that body is read on this path *before* any assignment of the same iteration (def-use: its only reaching
+    definitions are loop-carried or from before the loop)."""
+    out, todo = [], [t]
+    while todo:
+        n = todo.pop()
+        if isinstance(n, (ast.Lambda, ast.ListComp, ast.SetComp, ast.DictComp, ast.GeneratorExp)):
+            continue
+        if isinstance(n, ast.Name) and isinstance(n.ctx, ast.Load) and n.id in plain and n.id not in out:
+            out.append(n.id)
+        todo.extend(ast.iter_child_nodes(n))
+    return sorted(out)
+
+
+def _outside_vocabulary(ctx, facts, subj, enum):
+    """The facts of a path exclude every member of the C-defined enum for `subj` (finite vocabulary of the quantifier:
+    e.g. a record type that is none of TYPE_NONE/SHORT/INT/PTR) - the path is outside the property's quantifier."""
+    members = _enums(ctx).get(enum) or {}
+    return bool(members) and all(_lookup(facts, ("eq", subj, ("int", v))) is False for v in set(members.values()))
+
+
+def _type_facts(ctx, facts, subj, enum):
+    """Readable rendering of what a path's facts say about the record type."""
+    names = {}
+    for k, v in (_enums(ctx).get(enum) or {}).items():
+        names.setdefault(v, k)
+    eq = [names.get(k[2][1], k[2][1]) for k, v in facts.items() if k[0] == "eq" and k[1] == subj and v]
+    ne = [names.get(k[2][1], k[2][1]) for k, v in facts.items() if k[0] == "eq" and k[1] == subj and not v]
+    if eq:
+        return f"{subj} == {eq[0]}"
+    if ne:
+        rest = [n for val, n in sorted(names.items()) if n not in ne]
+        return f"{subj} is none of {', '.join(str(x) for x in ne)}" + (f" (e.g. {rest[0]})" if rest else "")
+    return f"any {subj}"
+
+
 def r2_r4(ctx):
     f = ctx.repo.func("beacon.BeaconConfig.settings_map")
     dflt = param_defaults(f.node)
@@ -1035,6 +1116,8 @@ def _settings_map(ctx, f):
     raw = f"{sv}.value"
     aggs = {label: _Agg() for label, *_ in scen}
     pretty_only = _Agg()
+    plain = _plain_loop_locals(loop)
+    tsubj = f"{sv}.type"
     for p, _k, v in judged:
         w = v
         pa = _pretty_app(ctx, v)
@@ -1053,6 +1136,14 @@ def _settings_map(ctx, f):
             a = aggs[label]
             if ent is not None:
                 a.add(None, f"the path is selected by `{ent}`, which the rule cannot relate to the view flags / record type")
+                continue
+            stale = _read_before_assignment(v, plain)
+            if stale:
+                # the value stored for this record is not computed from this record on this path
+                if not _outside_vocabulary(ctx, p.facts, tsubj, "SettingsType"):
+                    a.add(False, f"on the path with {_type_facts(ctx, p.facts, tsubj, 'SettingsType')} the stored value `{src(v)[:60]}` reads local "
+                                 f"`{stale[0]}` before any assignment of the same iteration: the entry gets what was computed for the previous "
+                                 f"record (UnboundLocalError for the first record), not the value of its own record")
                 continue
             conv = _int_conv(ctx, f, w)
             opq = _opaque(ctx, f, w, locals_)
@@ -1095,6 +1186,14 @@ def _settings_map(ctx, f):
                 continue
             if ent is not None:
                 kagg.add(None, f"the path is selected by `{ent}`, which the rule cannot relate to index_type")
+                continue
+            stale = _read_before_assignment(k, plain)
+            if stale:
+                if _lookup(p.facts, ("eq", "index_type", ("str", "enum"))) is False:
+                    kagg.add(None, f"the key `{src(k)[:60]}` is not assigned for an index_type that is none of the documented values")
+                    continue
+                kagg.add(False, f"index_type={label}: the key `{src(k)[:60]}` reads local `{stale[0]}` before any assignment of the same iteration: "
+                                f"the entry is stored under the key computed for the previous record (UnboundLocalError for the first record)")
                 continue
             base, fallback = k, False
             if isinstance(k, ast.BoolOp) and isinstance(k.op, ast.Or):
@@ -1506,7 +1605,7 @@ class _ZeroIndex:
                 wh, o = b["whence"], b["offset"]
                 cur = wh is not None and (dotted(wh) in ("io.SEEK_CUR", "os.SEEK_CUR", "SEEK_CUR") or _c(wh) == 1)
                 absolute = wh is None or dotted(wh) in ("io.SEEK_SET", "os.SEEK_SET", "SEEK_SET") or (isinstance(wh, ast.Constant) and wh.value == 0)
-                k = _c(inline(self.f.node, o, stop=self.stop)) if o is not None else None
+                k = self._seek_const(o) if o is not None else None
                 if cur and off is not None and isinstance(k, int) and not isinstance(k, bool):
                     off = off + k
                 elif absolute and isinstance(o, ast.Name) and o.id in dict(tells):
@@ -1519,6 +1618,10 @@ class _ZeroIndex:
             else:
                 off = None
         return off, sval
+
+    def _seek_const(self, o):
+        """the constant a seek offset expression denotes (None: not a constant of the code)"""
+        return _c(inline(self.f.node, o, stop=self.stop))
 
     # ---------------------------------------------------------------- folding the scenario into a test
     def _is_idx(self, e, sval):
@@ -1865,6 +1968,428 @@ class _ZeroIndex:
             ctx.ob("R5", "LOOP", f, text, True, f"{scen}: every path of the iteration leaves the loop before a yield and before the next record", self.loop)
 
 
+_Z_IDX = "__record_index__"
+_Z_REM = "__record_start_to_end_of_data__"
+_STREAM_DATA = ("read", "read1", "peek", "readline", "readinto")
+
+
+def _ival_cmp(lo, hi, op, c):
+    """Outcome of `x <op> c` for every x of the interval [lo, hi] (hi None = unbounded), or None if it depends on x."""
+    inf = float("inf")
+    hi = inf if hi is None else hi
+    if isinstance(op, ast.Lt):
+        return True if hi < c else False if lo >= c else None
+    if isinstance(op, ast.LtE):
+        return True if hi <= c else False if lo > c else None
+    if isinstance(op, ast.Gt):
+        return True if lo > c else False if hi <= c else None
+    if isinstance(op, ast.GtE):
+        return True if lo >= c else False if hi < c else None
+    if isinstance(op, (ast.Eq, ast.NotEq)):
+        out = c < lo or c > hi or c != int(c)
+        if lo == hi == c:
+            return isinstance(op, ast.Eq)
+        return isinstance(op, ast.NotEq) if out else None
+    return None
+
+
+_MIRROR = {ast.Lt: ast.Gt, ast.Gt: ast.Lt, ast.LtE: ast.GtE, ast.GtE: ast.LtE, ast.Eq: ast.Eq, ast.NotEq: ast.NotEq}
+
+
+class _CompleteRecord(_ZeroIndex):
+    """R5 "a complete record is always yielded" - the dual of `_ZeroIndex`.
+
+    Named scenario (the clause "yields the settings ... ended by a zero index or end of data"): *when an iteration of the
+    parse loop starts, the data at the cursor holds a complete record whose index is not 0* - its index is any other
+    16-bit value, its type any member of SettingsType, its length any 16-bit value, its value bytes arbitrary, and it
+    may be followed by anything or by nothing at all (quantifier of the property).  Decoding such a record raises
+    nothing.  Necessary condition: every exception-free control-flow path of that iteration reaches a `yield` before
+    it leaves the loop or starts the next iteration.
+
+    Same machinery as `_ZeroIndex` (one walk of the CFG of the loop body per path, symbolic branch facts, cursor offset
+    relative to the record start in Z u {unknown}, nothing executed).  What the scenario determines (lemmas C1-C6 of the
+    module docstring): the look-ahead at offset 0 is not 00 00 and has its full length, the first field of the parsed
+    structure is in [1, 65535], the structure is truthy and not None, type/length lie in their intervals, and the
+    number of bytes between the record start and the end of the data is at least the size of the fixed part of the
+    structure (taken from the C definitions) - with equality for a record of length 0 that ends the data.  A test on
+    that quantity is folded by interval comparison; where the interval does not decide it, both outcomes are possible
+    by the quantifier.  Edges into exception handlers are not followed (premise: nothing raises)."""
+
+    def __init__(self, ctx, f, cfg, loop, parse, pst, sname):
+        super().__init__(ctx, f, cfg, loop, parse, pst, sname)
+        self._pk_now, self._cur = {}, (None, {})
+        self.hdr, self.ivals = None, {}
+        cd = ctx.cdefs("beacon").get("cs_struct")
+        try:
+            fields = list(cd.struct("Setting").fields)
+            fixed = [cd.type_size(x.type)[0] for x in fields if x.count is None]
+            var = [x for x in fields if x.count is not None]
+            if all(isinstance(w, int) for w in fixed) and all(isinstance(x.count, str) for x in var):
+                self.hdr = sum(fixed)  # a record whose counted arrays are empty is complete with the fixed fields alone
+            for x in fields[1:]:
+                if x.count is not None:
+                    continue
+                w = cd.type_size(x.type)[0]
+                members = _enums(ctx).get(x.type)
+                if members:
+                    self.ivals[x.name] = (min(members.values()), max(members.values()))
+                elif isinstance(w, int):
+                    self.ivals[x.name] = (0, 256 ** w - 1)
+            w0 = cd.type_size(fields[0].type)[0]
+            self.idx_hi = 256 ** w0 - 1 if isinstance(w0, int) else None
+        except Exception:
+            self.hdr, self.ivals, self.idx_hi = None, {}, None
+        stop = set(self.stop)
+        for s in statements(f.node):
+            if isinstance(s, ast.Assign) and len(s.targets) == 1 and isinstance(s.targets[0], ast.Name) and self.stream is not None:
+                if any(isinstance(c, ast.Call) and isinstance(c.func, ast.Attribute) and c.func.attr == "tell" and dotted(c.func.value) == self.stream
+                       for c in ast.walk(s.value)):
+                    stop.add(s.targets[0].id)
+        self.stop = frozenset(stop)
+
+    # ---------------------------------------------------------------- cursor arithmetic
+    def _len_subst(self, pk):
+        def subst(e):
+            if isinstance(e, ast.Call) and dotted(e.func) == "len" and len(e.args) == 1 and not e.keywords:
+                k = self._pk(e.args[0], pk, None)
+                if k is not None and self.hdr is not None and k <= self.hdr:
+                    return _sympoly().SymPoly.const(k)  # C1: a look at the first k <= header bytes of a complete record has length k
+            return None
+        return subst
+
+    def _seek_const(self, o):
+        k = super()._seek_const(o)
+        if k is None:
+            p = _sympoly().sympoly(inline(self.f.node, o, stop=self.stop), self._len_subst(self._pk_now))
+            c = p.const_value() if p is not None else None
+            if c is not None and c.denominator == 1:
+                k = int(c)
+        return k
+
+    def _is_end(self, e, depth=0):
+        """e denotes the offset of the end of the data: stream.seek(0, SEEK_END), len(stream.getvalue() / getbuffer()),
+        stream.getbuffer().nbytes - or a single-definition local holding one of these."""
+        if isinstance(e, ast.Name):
+            o = origin(self.f.node, e)
+            return depth < 3 and o is not e and self._is_end(o, depth + 1)
+        on_stream = lambda c, names: (isinstance(c, ast.Call) and isinstance(c.func, ast.Attribute) and c.func.attr in names  # noqa: E731
+                                      and dotted(c.func.value) == self.stream)
+        if on_stream(e, ("seek",)):
+            b = {"offset": e.args[0] if e.args else None, "whence": e.args[1] if len(e.args) > 1 else None}
+            for k in e.keywords:
+                if k.arg in b:
+                    b[k.arg] = k.value
+            wh = b["whence"]
+            return b["offset"] is not None and _c(b["offset"]) == 0 and wh is not None \
+                and (dotted(wh) in ("io.SEEK_END", "os.SEEK_END", "SEEK_END") or _c(wh) == 2)
+        if isinstance(e, ast.Call) and dotted(e.func) == "len" and len(e.args) == 1 and not e.keywords:
+            return on_stream(e.args[0], ("getvalue", "getbuffer")) and not e.args[0].args
+        if isinstance(e, ast.Attribute) and e.attr == "nbytes":
+            return on_stream(e.value, ("getbuffer",)) and not e.value.args
+        return False
+
+    def _pos_subst(self, e):
+        sp = _sympoly()
+        off, tells = self._cur
+        if isinstance(e, (ast.Name, ast.Call, ast.Attribute)) and self._is_end(e):
+            return sp.SymPoly.atom("$END")
+        if isinstance(e, ast.Call) and isinstance(e.func, ast.Attribute) and e.func.attr == "tell" and dotted(e.func.value) == self.stream and not e.args:
+            return None if off is None else sp.SymPoly.atom("$REC") + sp.SymPoly.const(off)
+        if isinstance(e, ast.Name):
+            if isinstance(tells.get(e.id), int):
+                return sp.SymPoly.atom("$REC") + sp.SymPoly.const(tells[e.id])
+            if tells.get("~" + e.id) is not None:
+                return tells["~" + e.id]
+        return None
+
+    def _rem_cmp(self, l, op, r):
+        """C6: a comparison that is linear in (end of data - record start) =: R, R >= header size: its outcome by
+        interval comparison, or - where R decides it - the comparison over the placeholder of R; None: not of that form."""
+        if self.hdr is None:
+            return None
+        sp = _sympoly()
+        pl, pr = sp.sympoly(l, self._pos_subst), sp.sympoly(r, self._pos_subst)
+        if pl is None or pr is None:
+            return None
+        p = pl - pr
+        if p.atoms() != {"$END", "$REC"} or any(len(k) > 1 for k in p.terms):
+            return None
+        a = p.terms.get(("$END",))
+        if a is None or p.terms.get(("$REC",)) != -a:
+            return None
+        b = -p.terms.get((), 0) / a  # a * R + c <op> 0   <=>   R <op'> -c / a
+        cmpop = type(op) if a > 0 else _MIRROR[type(op)]
+        out = _ival_cmp(self.hdr, None, cmpop(), b)
+        if out is not None:
+            return ast.Constant(value=out)
+        return ast.Compare(left=ast.Name(id=_Z_REM, ctx=ast.Load()), ops=[cmpop()], comparators=[ast.Constant(value=int(b) if b.denominator == 1 else float(b))])
+
+    # ---------------------------------------------------------------- folding the scenario into a test
+    def _side(self, e, sval, pk, direct):
+        if self._is_idx(e, sval):
+            return ("idx",)
+        k = self._pk(e, pk, direct)
+        if k is not None:
+            return ("head", k)
+        if isinstance(e, ast.Subscript) and isinstance(e.slice, ast.Slice) and e.slice.step is None and (e.slice.lower is None or is_const(e.slice.lower, 0)):
+            m, k = _c(e.slice.upper), self._pk(e.value, pk, direct)
+            if k is not None and isinstance(m, int) and not isinstance(m, bool) and 1 <= m <= k:
+                return ("head", m)
+        if isinstance(e, ast.Call) and dotted(e.func) == "len" and len(e.args) == 1 and not e.keywords:
+            k = self._pk(e.args[0], pk, direct)
+            if k is not None and self.hdr is not None and k <= self.hdr:
+                return ("len", k)
+        ic = _int_conv(self.ctx, self.f, e) if isinstance(e, ast.Call) else None
+        if ic is not None:
+            data, size = ic[3], ic[0]
+            if isinstance(data, ast.Subscript) and isinstance(data.slice, ast.Slice) and data.slice.step is None \
+                    and (data.slice.lower is None or is_const(data.slice.lower, 0)) and isinstance(_c(data.slice.upper), int) and size is None:
+                data, size = data.value, _c(data.slice.upper)
+            k = self._pk(data, pk, direct)
+            if k is not None and ((k == 2 and (size is None or (isinstance(size, int) and size >= 2))) or size == 2):
+                return ("idxint",)
+        if sval and self.sname is not None:
+            d = dotted(e)
+            for name, iv in self.ivals.items():
+                if d in (f"{self.sname}.{name}", f"{self.sname}.{name}.value"):
+                    return ("fld", iv)
+        cv = _cv(self.ctx, e)
+        if cv is not None:
+            return ("const", cv[1])
+        return None
+
+    def _cmp(self, t, sval, pk, direct):
+        l, op, r = t.left, t.ops[0], t.comparators[0]
+        out = self._rem_cmp(l, op, r)
+        if out is not None:
+            return out
+        a, b = self._side(l, sval, pk, direct), self._side(r, sval, pk, direct)
+        if a is None or b is None or (a[0] == "const") == (b[0] == "const"):
+            return None
+        if a[0] == "const":
+            a, b, op = b, a, _MIRROR.get(type(op), type(op))()
+        c = b[1]
+        isint = isinstance(c, int) and not isinstance(c, bool)
+        eqop = isinstance(op, (ast.Eq, ast.NotEq))
+        order = isinstance(op, (ast.Lt, ast.LtE, ast.Gt, ast.GtE))
+        if not (eqop or order):
+            return None
+        unequal = ast.Constant(value=isinstance(op, ast.NotEq))
+        if a[0] in ("idx", "idxint", "len", "fld"):
+            if not isint:
+                return unequal if eqop else None
+            if a[0] == "len":
+                lo, hi = a[1], a[1]
+            elif a[0] == "fld":
+                lo, hi = a[1]
+            elif a[0] == "idx":
+                lo, hi = 1, self.idx_hi  # C2
+            else:
+                # C3: an integer made of exactly the index bytes - in any byte order, signed or not - is not 0
+                return ast.Constant(value=isinstance(op, ast.NotEq)) if eqop and c == 0 else None
+            out = _ival_cmp(lo, hi, op, c)
+            if out is not None:
+                return ast.Constant(value=out)
+            if a[0] == "idx":
+                return ast.Compare(left=ast.Name(id=_Z_IDX, ctx=ast.Load()), ops=[op], comparators=[ast.Constant(value=c)])
+            return None  # a field in its interval: the code's own comparison stays (free by the quantifier)
+        if a[0] == "head" and eqop:
+            k = a[1]
+            if not isinstance(c, bytes):
+                return unequal
+            exact = self.hdr is not None and k <= self.hdr
+            if (exact and len(c) != k) or len(c) > k or (self.hdr is not None and len(c) < min(k, self.hdr)):
+                return unequal  # C1: the look-ahead has its full length
+            if len(c) >= 2 and c[:2] == b"\x00\x00":
+                return unequal  # C2: the index bytes are not 00 00
+            if not exact:
+                return None
+            return ast.Compare(left=ast.Name(id=f"__record_head_{k}__", ctx=ast.Load()), ops=[op], comparators=[ast.Constant(value=c)])
+        return None
+
+    def _fold(self, t, boolpos, sval, pk, direct):
+        rec = lambda x, bp: self._fold(x, bp, sval, pk, direct)  # noqa: E731
+        if isinstance(t, ast.UnaryOp) and isinstance(t.op, ast.Not):
+            return ast.UnaryOp(op=ast.Not(), operand=rec(t.operand, True))
+        if isinstance(t, ast.BoolOp):
+            return ast.BoolOp(op=t.op, values=[rec(v, True) for v in t.values])
+        if boolpos and isinstance(t, ast.Call) and dotted(t.func) == "bool" and len(t.args) == 1 and not t.keywords:
+            return rec(t.args[0], True)
+        if isinstance(t, ast.Compare) and len(t.ops) == 1:
+            l, op, r = t.left, t.ops[0], t.comparators[0]
+            if isinstance(op, (ast.In, ast.NotIn)) and isinstance(r, (ast.Tuple, ast.List, ast.Set)) and r.elts:
+                ors = rec(ast.BoolOp(op=ast.Or(), values=[ast.Compare(left=l, ops=[ast.Eq()], comparators=[x]) for x in r.elts]), True)
+                return ors if isinstance(op, ast.In) else ast.UnaryOp(op=ast.Not(), operand=ors)
+            out = self._cmp(t, sval, pk, direct)
+            if out is not None:
+                self.nforced += 1
+                return out
+            return t
+        if boolpos:
+            a = self._side(t, sval, pk, direct)
+            if a is not None and (a[0] in ("idx", "idxint", "head") or (a[0] == "len" and a[1] > 0)):
+                self.nforced += 1
+                return ast.Constant(value=True)  # C1/C2: a non-zero index, a non-empty look-ahead
+            if sval and isinstance(t, ast.Name) and t.id == self.sname:
+                self.nforced += 1
+                return ast.Constant(value=True)  # C4 (S2): a structure with a non-zero field is truthy
+        return t
+
+    @staticmethod
+    def _say(key, val):
+        def nice(x):
+            if x == _Z_REM:
+                return "the number of bytes from the start of the record to the end of the data"
+            if x == _Z_IDX:
+                return "the index of the record"
+            m = re.match(r"__record_head_(\d+)__$", x)
+            return f"the first {m.group(1)} bytes of the record" if m else f"`{x}`"
+        if key[0] == "eq" and key[1].startswith("__record_"):
+            return f"{nice(key[1])} {'==' if val else '!='} {key[2][1]!r}"
+        if key[0] == "lt" and (key[1].startswith("__record_") or key[2].startswith("__record_")):
+            return f"{nice(key[1])} {'<' if val else '>='} {nice(key[2])}".replace("`", "")
+        return _ZeroIndex._say(key, val)
+
+    def _subjects(self, t):
+        out = set()
+        for n in ast.walk(t):
+            if isinstance(n, ast.Attribute) and isinstance(n.value, ast.Name) and n.value.id == self.sname:
+                out.add("f:" + n.attr)
+            elif isinstance(n, ast.Call) and isinstance(n.func, ast.Attribute) and dotted(n.func.value) == self.stream:
+                out.add("r:" + src(n))
+            elif isinstance(n, ast.Name) and n.id.startswith("__record_"):
+                out.add(n.id)
+        return out
+
+    def _not_understood(self, t, sval, pk, direct, boolpos=True):
+        if isinstance(t, ast.Name) and t.id.startswith("__record_"):
+            return None
+        if isinstance(t, ast.Call) and isinstance(t.func, ast.Attribute) and dotted(t.func.value) == self.stream and t.func.attr not in _STREAM_DATA:
+            return f"`{src(t)[:50]}` (position / size of the stream) is used in a form the scenario does not determine"
+        if isinstance(t, (ast.Compare, ast.BinOp, ast.Call, ast.Subscript)):
+            subj = self._subjects(t)
+            if len(subj) > 1:
+                return f"`{src(t)[:60]}` relates several quantities of the record ({', '.join(sorted(x.split(':')[-1] for x in subj))[:80]})"
+        return super()._not_understood(t, sval, pk, direct, boolpos)
+
+    # ---------------------------------------------------------------- path walk
+    def _decide(self, test, st):
+        self._pk_now = dict(st[2])
+        ops = self._ops([test])
+        still = all(k in ("tell", "peek", "seekable", "readable") for k, _c0 in ops)
+        self._cur = (st[5] if still else None, dict(st[3]))
+        return super()._decide(test, st)
+
+    def _arrive(self, n, st):
+        self._pk_now = dict(st[2])
+        out = super()._arrive(n, st)
+        s = self.cfg.stmt.get(n)
+        if not isinstance(s, (ast.Assign, ast.AnnAssign, ast.AugAssign)):
+            return out
+        td, changed = dict(out[3]), False
+        for x in ast.walk(s):
+            if isinstance(x, ast.Name) and isinstance(x.ctx, ast.Store) and td.pop("~" + x.id, None) is not None:
+                changed = True
+        if isinstance(s, ast.Assign) and len(s.targets) == 1 and isinstance(s.targets[0], ast.Name) and s.targets[0].id not in td:
+            ops = self._ops([s])
+            if ops and all(k == "tell" for k, _c0 in ops) and st[5] is not None:
+                self._cur = (st[5], dict(st[3]))
+                p = _sympoly().sympoly(s.value, self._pos_subst)
+                if p is not None and "$REC" in p.atoms():
+                    td["~" + s.targets[0].id] = p  # a local computed from tell() at a known offset
+                    changed = True
+        return out[:3] + (frozenset(td.items()),) + out[4:] if changed else out
+
+    def walk(self):
+        """(bad, aborted): bad = [(certain, what happens instead of the yield, free decisions on the path, reason of uncertainty)]"""
+        start = (self.header, frozenset(), frozenset(), frozenset(), False, 0, True)
+        seen, stack = {start}, [(start, (), None)]
+        bad = []
+        while stack:
+            st, notes, unsure = stack.pop()
+            n = st[0]
+            s = self.cfg.stmt.get(n)
+            nexts = []
+            if isinstance(s, (ast.If, ast.While)):
+                for label, st2, note, why in self._decide(s.test, st):
+                    e = self.cfg.edge_node(s, label)
+                    if st is start:
+                        if label != "true":
+                            continue  # premise of the scenario: an iteration starts
+                        st2, note, why = st2[:6] + (True,), (), None
+                    if self.cfg.g.has_edge(n, e):
+                        nexts.append((e, st2, notes + note, unsure or why))
+            else:
+                for y in self.cfg.g.successors(n):
+                    if isinstance(self.cfg.stmt.get(y), ast.ExceptHandler) or (y[0] == "raise" and not isinstance(s, ast.Raise)):
+                        continue  # premise of the scenario: decoding a complete record raises nothing
+                    st2, w = st, unsure
+                    if isinstance(s, (ast.For, ast.AsyncFor)) and y[0] == "e":
+                        off, sval = self._move(self._ops([s.iter]), st[5], st[3], st[4])
+                        if st is start:
+                            if y[2] != "iter":
+                                continue
+                            st2 = st[:4] + (sval, off, True)
+                        else:
+                            st2 = st[:4] + (sval, off, False)
+                            w = w or "a `for` loop whose trip count the scenario does not determine"
+                    nexts.append((y, st2, notes, w))
+            for y, st2, nt, w in nexts:
+                if y == self.header:
+                    bad.append((st2[6], "the next iteration starts", nt, w))
+                    continue
+                if self._outside(y):
+                    if y[0] == "raise":
+                        bad.append((False, "an exception leaves the function", nt, w or "whether it concerns records of the quantifier is not analysed"))
+                    else:
+                        bad.append((st2[6], "the loop is left", nt, w))
+                    continue
+                if self._yields(y):
+                    continue
+                st3 = self._arrive(y, (y,) + st2[1:])
+                if st3 not in seen:
+                    seen.add(st3)
+                    if len(seen) > self.MAXSTATES:
+                        return bad, True
+                    stack.append((st3, nt, w))
+        return bad, False
+
+    def emit(self):
+        ctx, f = self.ctx, self.f
+        text = "a complete record is always yielded"
+        if self.stream is None:
+            ctx.undecided("R5", "LOOP", f, text, "the struct parse does not read a named stream: the cursor cannot be followed", self.parse)
+            return
+        try:
+            bad, aborted = self.walk()
+        except (KeyError, AttributeError, TypeError, ValueError, IndexError, RecursionError) as e:
+            ctx.undecided("R5", "LOOP", f, text, f"the loop has a shape the scenario walk does not model ({type(e).__name__}: {e})", self.loop)
+            return
+        sure = [b for b in bad if b[0]]
+        scen = "scenario `a complete record with a non-zero index lies at the cursor` (any type, length, value; anything or nothing behind it)"
+        if sure:
+            _c0, what, notes, _w = min(sure, key=lambda b: len(b[2]))
+            rem = any("to the end of the data" in x for x in notes)
+            ctx.ob("R5", "LOOP", f, text, False,
+                   f"{scen}: {what} before the record is yielded " + ("when " + " and ".join(notes[:6]) if notes else "whatever the record is")
+                   + (f" - that number is exactly {self.hdr} (the fixed fields of struct Setting) for a record of length 0 that ends the data, "
+                      f"which is a complete record" if rem else "")
+                   + ": a serialized setting is dropped", self.loop)
+        elif aborted:
+            ctx.undecided("R5", "LOOP", f, text, "too many paths through the loop body", self.loop)
+        elif bad:
+            _c0, what, notes, w = bad[0]
+            ctx.undecided("R5", "LOOP", f, text, f"{scen}: {what} before the record is yielded on a path whose feasibility is not understood ({w})", self.loop)
+        else:
+            ctx.ob("R5", "LOOP", f, text, True, f"{scen}: every exception-free path of the iteration reaches the yield before it leaves the loop or starts the next iteration", self.loop)
+
+
+def _sympoly():
+    from csverif import absint
+
+    return absint
+
+
 def r5_r6(ctx):
     f = ctx.repo.func("beacon.iter_settings")
     cfg = ctx.cfg(f)
@@ -1948,6 +2473,8 @@ def r5_r6(ctx):
                f"terminator test on a 2-byte peek of {stream}; the 00 00 edge ends the iteration without parsing or yielding={leaves}; the test dominates the parse={dom}", tst)
     # ---- scenario "the record at the cursor has index 0": no path of one iteration reaches a yield or the next record
     _ZeroIndex(ctx, f, cfg, loop, parse, pst, sname).emit()
+    # ---- scenario "a complete record lies at the cursor": every exception-free path of one iteration reaches the yield
+    _CompleteRecord(ctx, f, cfg, loop, parse, pst, sname).emit()
     # ---- EOF: the parse sits in a try whose EOFError handler leaves the loop
     # (the innermost try - inside or around the loop - whose body holds the parse and that catches EOFError decides)
     eof_ok = False
